@@ -137,7 +137,7 @@ func runC09O(c C09OCase) (verdict vrt.Verdict) {
 			fail("EnableVerification (every installed config is valid) returned %v", enErr)
 			return
 		}
-		if cur, ctok := d.ViewVersion(); cfg != cur || serialOf(etok) != serialOf(ctok) {
+		if cur, ctok := d.ViewVersion(); cfg != cur || etok != ctok {
 			fail("EnableVerification returned (%p, serial %d), want the installed config (%p, serial %d)", cfg, serialOf(etok), cur, serialOf(ctok))
 			return
 		}
